@@ -182,11 +182,25 @@ def run(args):
             dev = sp.series(sp.sqrt(sp.simplify(sq)) - 1, J.TH, 0, 6).removeO()
             lead = sp.expand(dev).as_leading_term(J.TH)
             c, p = lead.as_coeff_exponent(J.TH)
-            # at th^2 = eps the deviation is c * eps^(p/2): need p >= 2 and c < 1
-            ok = p >= 2 and abs(float(c)) < 1
+            # the arm is used up to the switch-over magnitude th_s read from the code's own switch; there the deviation
+            # c * th_s^p must stay below the constructor's acceptance threshold eps (double and float)
+            worst = []
+            for sc in ("double", "float"):
+                epsv = RJ.EPS_VAL[sc]
+                ths = []
+                for ln, q, _small, thr in js.switches:
+                    lead_q = sp.series(q, J.TH, 0, 8).removeO()
+                    cq, pq = sp.expand(lead_q).as_leading_term(J.TH).as_coeff_exponent(J.TH)
+                    ths.append((float(thr.subs(J.EPS, epsv)) / abs(float(cq))) ** (1.0 / float(pq)))
+                if not ths:
+                    raise ValueError("no precision switch found in SO3TangentBase::exp")
+                th_s = max(ths)
+                worst.append((sc, th_s, abs(float(c)) * th_s ** float(p), epsv))
+            ok = all(d_ <= e_ for _sc, _t, d_, e_ in worst)
             npd += 1
             rep.obligation(bool(ok), lambda: C.Finding("C08", "R-JET.unit", "SO3TangentBase::exp small-angle arm",
-                           "the small-angle quaternion has |q| - 1 = %s, which exceeds the constructor's acceptance threshold eps for th^2 <= eps" % dev, f["file"], f["line"]))
+                           "the small-angle quaternion has |q| - 1 = %s; at the switch-over this is %s, above the constructor's acceptance threshold Constants::eps: exp returns an element the library itself rejects" % (
+                               dev, ", ".join("%.1e (%s, |theta| = %.2g, eps = %.1e)" % (d_, sc_, t_, e_) for sc_, t_, d_, e_ in worst)), f["file"], f["line"]))
             rep.sample({"SO3 exp small-angle |q|-1": str(dev)})
         except Exception as e:   # noqa
             rep.broke("R-JET cannot evaluate SO3TangentBase::exp small-angle arm: %s" % e)
